@@ -35,9 +35,19 @@ func runC16(c *Ctx) {
 	if enc == nil || dec == nil {
 		return
 	}
-	ctxStores := func(u *an.Unit, typ string, under string) map[string]string {
-		out := map[string]string{}
+	// the values a context field ends up with after a full MsgApp, independent of how the stores are arranged:
+	// "[entries] v" is stored when the message carries entries, "[default] v" otherwise (an unconditional store that
+	// a store under "has entries" may overwrite later, or the else branch of that test). An unconditional store that can
+	// follow a conditional one would print as "[overrides]" and match nothing.
+	ctxStores := func(u *an.Unit, typ string, under string, msg string) map[string]string {
 		goal := c.W.Parse(under)
+		hasEnts := c.W.Parse("0 < len(" + msg + "Entries)")
+		type st struct {
+			s    *flow.Site
+			v    string
+			kind string
+		}
+		by := map[string][]st{}
 		for _, s := range u.Sites {
 			if s.Kind != flow.SStore || s.Field == nil || s.Index {
 				continue
@@ -46,17 +56,42 @@ func runC16(c *Ctx) {
 			if !strings.HasPrefix(fn, typ+".") {
 				continue
 			}
-			if res := flow.Implies(u.SitePC(s), goal); res.Holds && res.Undecided == "" {
+			pc := u.SitePC(s)
+			if res := flow.Implies(pc, goal); res.Holds && res.Undecided == "" {
 				v := "<inc>"
 				if s.RHS != nil {
 					v = u.C.Term(s.RHS)
 				}
-				f := strings.TrimPrefix(fn, typ+".")
-				if old, ok := out[f]; ok {
-					v = old + " ; " + v
+				kind := "default"
+				if flow.Implies(pc, hasEnts).Holds {
+					kind = "entries"
+				} else if !flow.Implies(pc, flow.Not(hasEnts)).Holds {
+					kind = "always"
 				}
-				out[f] = v
+				f := strings.TrimPrefix(fn, typ+".")
+				by[f] = append(by[f], st{s, v, kind})
 			}
+		}
+		out := map[string]string{}
+		for f, ss := range by {
+			var vs []string
+			for _, x := range ss {
+				k := x.kind
+				if k == "always" {
+					k = "default"
+					for _, y := range ss {
+						if y.kind == "entries" && !(x.s.Block == y.s.Block && x.s.SameBlockBefore(y.s)) && !(x.s.Block != y.s.Block && u.G.Dominates(x.s.Block, y.s.Block)) {
+							k = "overrides"
+						}
+					}
+					if len(ss) == 1 {
+						k = "always"
+					}
+				}
+				vs = append(vs, "["+k+"] "+x.v)
+			}
+			sort.Strings(vs)
+			out[f] = strings.Join(vs, " ; ")
 		}
 		return out
 	}
@@ -68,16 +103,16 @@ func runC16(c *Ctx) {
 		sort.Strings(out)
 		return out
 	}
-	e := norm(ctxStores(enc, "transport/rafthttp.msgAppV2Encoder", "!recv.isContinue(p0) && !rafthttp.isLinkHeartbeatMessage(p0)"), "p0.")
-	d := norm(ctxStores(dec, "transport/rafthttp.msgAppV2Decoder", "rafthttp.msgTypeApp == typ"), "m.")
+	e := norm(ctxStores(enc, "transport/rafthttp.msgAppV2Encoder", "!recv.isContinue(p0) && !rafthttp.isLinkHeartbeatMessage(p0)", "p0."), "p0.")
+	d := norm(ctxStores(dec, "transport/rafthttp.msgAppV2Decoder", "rafthttp.msgTypeApp == typ", "m."), "m.")
 	r.SetEq("C16-M1", "context fields stored after a full MsgApp: encoder = decoder", "", d, e, nil, nil)
 	r.Check("C16-M1", "both sides store all four context fields after a full message", "", len(e) == 4,
 		fmt.Sprintf("encoder stores %v", e))
-	ec := ctxStores(enc, "transport/rafthttp.msgAppV2Encoder", "recv.isContinue(p0)")
-	dc := ctxStores(dec, "transport/rafthttp.msgAppV2Decoder", "rafthttp.msgTypeAppEntries == typ")
+	ec := ctxStores(enc, "transport/rafthttp.msgAppV2Encoder", "recv.isContinue(p0)", "p0.")
+	dc := ctxStores(dec, "transport/rafthttp.msgAppV2Decoder", "rafthttp.msgTypeAppEntries == typ", "m.")
 	delete(ec, "uint8buf")
 	r.SetEq("C16-M1", "context fields advanced in the compact branch: encoder = decoder", "", norm(dc, "m."), norm(ec, "p0."), nil, nil)
-	r.Check("C16-M1", "the compact branch advances exactly the index, once per entry", "", len(ec) == 1 && ec["index"] == "<inc>" && dc["index"] == "<inc>", fmt.Sprintf("encoder %v decoder %v", ec, dc))
+	r.Check("C16-M1", "the compact branch advances exactly the index, once per entry", "", len(ec) == 1 && strings.HasSuffix(ec["index"], "] <inc>") && strings.HasSuffix(dc["index"], "] <inc>") && !strings.Contains(ec["index"], ";") && !strings.Contains(dc["index"], ";"), fmt.Sprintf("encoder %v decoder %v", ec, dc))
 
 	// ... and these stores happen on every successful path through the full-message branch
 	okRet := an.Return().Where("success", func(u *an.Unit, s *an.Site) bool { return !an.ErrorReturn(u, s) && an.LastResultNil(u, s) })
